@@ -40,6 +40,7 @@ class Block:
         self.wrap = None       # R7: fn signature text wrapping a region
         self.subst = []        # R7: (pattern, replacement) token substitutions listed in the template
         self.name = None
+        self.loopfree_fallback = False
 
 
 def parse_template(text):
@@ -95,6 +96,10 @@ def parse_template(text):
                     cur.subst.append((a.strip(), b.strip()))
                 elif d[0] == "name":
                     cur.name = d[1]
+                elif d[0] == "loopfree_fallback":
+                    # opt-in: if the body has NO loop left (all loop anchors lost), verify the function contract alone:
+                    # for loop-free code no invariant is needed, so a proof failure is about the contract
+                    cur.loopfree_fallback = True
                 else:
                     raise ValueError("unknown directive: " + line)
                 continue
@@ -329,12 +334,26 @@ def assemble(repo, template_text, canary_set=None):
                 its = [it for it in rsx.parse_items(syn.toks, 0, len(syn.toks)) if it.kind == "fn"]
                 if len(its) != 1:
                     raise rsx.ExtractError("wrap signature of %s does not parse as one fn" % b.address)
-                text = rsx.weave_fn(syn, its[0], set(b.rules), rw, spec=spec or None, loops=loops, inserts=inserts)
+                try:
+                    text = rsx.weave_fn(syn, its[0], set(b.rules), rw, spec=spec or None, loops=loops, inserts=inserts)
+                except rsx.ExtractError as e:
+                    if not (b.loopfree_fallback and "(has 0 loops)" in str(e)):
+                        raise
+                    rw = {"fallback.loop_contracts_dropped_body_is_loop_free": 1, "R7.region_wrapped_as_fn": 1}
+                    text = rsx.weave_fn(syn, its[0], set(b.rules), rw, spec=spec or None, loops={},
+                                        inserts=[(p_, t_) for p_, t_ in inserts if not p_.startswith("loop:")])
                 ex = rsx.Extracted(b.address, src.path, src.line_of(lo), raw, text, rw)
                 fn_name = b.name
             else:
-                ex = rsx.extract(repo, b.address, b.rules, spec=spec or None, result_name=b.result,
-                                 loops=loops, inserts=inserts)
+                try:
+                    ex = rsx.extract(repo, b.address, b.rules, spec=spec or None, result_name=b.result,
+                                     loops=loops, inserts=inserts)
+                except rsx.ExtractError as e:
+                    if not (b.loopfree_fallback and "(has 0 loops)" in str(e)):
+                        raise
+                    ex = rsx.extract(repo, b.address, b.rules, spec=spec or None, result_name=b.result, loops={},
+                                     inserts=[(p_, t_) for p_, t_ in inserts if not p_.startswith("loop:")])
+                    rsx._count(ex.rewrites, "fallback.loop_contracts_dropped_body_is_loop_free")
                 if b.subst:
                     ex.text = _apply_subst(ex.text, b.subst, ex.rewrites)
                 fn_name = b.name or b.address.split("::")[-1].strip().split()[-1]
